@@ -47,10 +47,17 @@ Print Assumptions C11_refuted_by_one_query.
 (* a.lua: local x = 1\nlocal x = x + 1\n *)
 Definition w_B1_own_initialiser : list (list N * list N) :=
   [([97; 46; 108; 117; 97], [108; 111; 99; 97; 108; 32; 120; 32; 61; 32; 49; 10; 108; 111; 99; 97; 108; 32; 120; 32; 61; 32; 120; 32; 43; 32; 49; 10])].
-(* a use of n inside the initialiser list of `local ... n ... = ...` resolves to the NEW local when the initialiser node is not a plain name / call / function expression (`local x = 1; local x = x + 1`: the x in `x + 1` jumps to line 2); IsCorrectPosition only protects NameExp/FuncCallExp/FuncDefExp initialisers *)
-Theorem C11_B1_own_initialiser_refuted : refs_deviates MRename w_B1_own_initialiser [97; 46; 108; 117; 97] 1 10 = true.
+(* B1, FIXED (fixes/C05-own-initialiser.diff): a use of n inside the initialiser list of `local ... n ... = ...` resolved to the
+   NEW local when the initialiser node was not a plain name / call / function expression (`local x = 1; local x = x + 1`:
+   the x in `x + 1` jumped to line 2); IsCorrectPosition only protected NameExp/FuncCallExp/FuncDefExp initialisers.  The
+   declaration now carries the region of its statement's initialiser list (VarInfo.InitLoc) and is invisible from inside it.
+   The witness deviates for the code before the repair (`no_fixes`) and no longer for the code in /repo. *)
+Theorem C11_B1_own_initialiser_refuted_before_fix : refs_deviates_fx no_fixes w_B1_own_initialiser MRename [97; 46; 108; 117; 97] 1 10 = true.
 Proof. vm_compute. reflexivity. Qed.
-Print Assumptions C11_B1_own_initialiser_refuted.
+Print Assumptions C11_B1_own_initialiser_refuted_before_fix.
+Theorem C11_B1_own_initialiser_fixed : refs_deviates MRename w_B1_own_initialiser [97; 46; 108; 117; 97] 1 10 = false.
+Proof. vm_compute. reflexivity. Qed.
+Print Assumptions C11_B1_own_initialiser_fixed.
 
 (* a.lua: local i = 9 for i = i, 10 do end\n *)
 Definition w_B2_for_bounds : list (list N * list N) :=
@@ -149,7 +156,7 @@ Print Assumptions C11_same_pos_other_file_fixed.
 
 
 Theorem C11_rename_full_refuted : ~ C11_rename_full.
-Proof. exact (refs_full_refuted_by MRename _ _ _ _ C11_B1_own_initialiser_refuted). Qed.
+Proof. exact (refs_full_refuted_by MRename _ _ _ _ C11_B2_for_bounds_refuted). Qed.
 Print Assumptions C11_rename_full_refuted.
 
 (* positive check used by the non-vacuity example: at the start cursor of occurrence o the answer is exactly the set of
